@@ -122,6 +122,48 @@ def h_vectorize(ctx, arity):
         ctx.claim('entry_%d_is_operation_of_row_%d' % (i, i), close(out[i], ctx.apply_uf('OP%d' % len(exp), exp)))
 
 
+OUTPUT_VALUES = [0, 1, 0.5, -2.25, True, 'ab', 'abcde', (1, 2), None]
+
+
+def h_vectorize_output_types(ctx, L):
+    """The operation returns ordinary Python values whose type differs from row to row (solver-chosen per row): entry i of
+    the result must still be the operation's value for row i (automatic conversion may widen, never narrow)."""
+    picks = [ctx.choice('row%d_output' % i, len(OUTPUT_VALUES)) for i in range(L)]
+    dtype = (None, False)[ctx.choice('dtype_sel', 2)]
+    vals = [OUTPUT_VALUES[k] for k in picks]
+    calls = []
+
+    def op(x):
+        calls.append(x)
+        return vals[len(calls) - 1]
+    vop = tools.vectorize(op, dtype=dtype)
+    try:
+        out = vop(np.arange(L, dtype=float))
+    except ValueError as e:
+        # numpy refuses some inhomogeneous combinations (e.g. a tuple next to a scalar) with an explicit error: loud, allowed
+        ctx.claim('refusal_only_for_inhomogeneous_shapes', 'inhomogeneous' in str(e) or 'sequence' in str(e))
+        return
+    ctx.note('outputs=%r dtype=%r -> %r' % (vals, dtype, out))
+    ctx.claim('one_entry_per_row', len(out) == L and len(calls) == L)
+    for i in range(L):
+        got, want = out[i], vals[i]
+        if isinstance(want, tuple):
+            ok = tuple(np.asarray(got).tolist()) == want or got == want
+        elif want is None:
+            ok = got is None
+        elif isinstance(want, str):
+            ok = str(got) == want
+        elif isinstance(got, (str, np.str_)):
+            # numbers next to strings are rendered as text by numpy's automatic conversion: the text must denote the value
+            ok = str(got) == str(want) or (not isinstance(want, bool) and float(got) == float(want))
+        else:
+            ok = bool(got == want)
+        ctx.claim('entry_%d_is_the_operation_value_of_row_%d' % (i, i), bool(ok))
+    if dtype is False:
+        ctx.claim('dtype_False_keeps_the_objects', isinstance(out, np.ndarray) and out.dtype == object and all(
+            type(out[i]) is type(vals[i]) for i in range(L)))
+
+
 def h_vectorize_history(ctx, arity):
     """The same vectorised operation is called twice with different input layouts: the second call must behave
     as if it were the first (no state carried over), and the caller's `constants` mask must not be modified."""
@@ -269,6 +311,11 @@ HARNESSES = [
     H('vectorize_arity1', h_vectorize, dict(arity=1), bounds='1 input: 5 kinds x length 1..3 x batch_size modes x dtype {None,False}'),
     H('vectorize_arity2', h_vectorize, dict(arity=2), bounds='2 inputs: 25 kind pairs x length 1..3 x batch_size modes x dtype'),
     H('vectorize_arity3', h_vectorize, dict(arity=3), bounds='3 inputs', tiers=('thorough',)),
+    H('vectorize_output_types_L2', h_vectorize_output_types, dict(L=2), witness=False,
+      bounds='2 rows; per row the operation returns one of %d ordinary Python values (int, float, bool, short/long str, tuple, None), '
+             'solver-chosen; dtype in {None, False}' % len(OUTPUT_VALUES)),
+    H('vectorize_output_types_L3', h_vectorize_output_types, dict(L=3), witness=False, tiers=('thorough',),
+      bounds='3 rows, per-row output value solver-chosen'),
     H('vectorize_history_arity2', h_vectorize_history, dict(arity=2),
       bounds='two consecutive calls of one vectorised operation, 2 inputs each scalar or 1-D batch or declared constant; mask None / list / tuple'),
     H('external_meta_L2', h_external, dict(L=2, with_meta=True), bounds='vectorised external command, 2 rows, node uses meta'),
